@@ -1,0 +1,18 @@
+//go:build verif
+
+package term
+
+import (
+	"git.sr.ht/~rockorager/vaxis"
+	"git.sr.ht/~rockorager/vaxis/ansi"
+)
+
+// VerifSGR applies one parsed SGR control sequence (CSI ... m) to an emulator
+// whose pen is pen (the zero Style is a fresh pen) and returns the pen
+// afterwards. It is the same call the CSI dispatcher makes for final byte 'm'.
+func VerifSGR(pen vaxis.Style, seq ansi.CSI) vaxis.Style {
+	vt := &Model{}
+	vt.cursor.Style = pen
+	vt.sgr(seq.Parameters)
+	return vt.cursor.Style
+}
